@@ -5,6 +5,7 @@ import DAVerif.Drv.OpsDrv
 import DAVerif.Drv.SqlDrv
 import DAVerif.Drv.Schema
 import DAVerif.Drv.EvalCache
+import DAVerif.Drv.Own
 import DAVerif.Drv.MethodsDrv
 import DAVerif.Drv.UsedDag
 import DAVerif.Drv.EqDrv
@@ -20,7 +21,7 @@ Total: a malformed or unknown case answers `bad`.
 open Lean DAVerif.Drv
 
 def allHandlers : List (String × Handler) :=
-  OSetDrv.handlers ++ CCDrv.handlers ++ OpsDrv.handlers ++ SqlDrv.handlers ++ SchemaDrv.handlers ++ EvalCacheDrv.handlers ++ MethodsDrv.handlers ++ UsedDagDrv.handlers ++ EqDrv.handlers ++ ExprDrv.handlers ++ CDataDrv.handlers ++ TextDrv.handlers ++ DataSpaceDrv.handlers
+  OSetDrv.handlers ++ CCDrv.handlers ++ OpsDrv.handlers ++ SqlDrv.handlers ++ SchemaDrv.handlers ++ EvalCacheDrv.handlers ++ OwnDrv.handlers ++ MethodsDrv.handlers ++ UsedDagDrv.handlers ++ EqDrv.handlers ++ ExprDrv.handlers ++ CDataDrv.handlers ++ TextDrv.handlers ++ DataSpaceDrv.handlers
 
 def answer (line : String) : Json :=
   match Json.parse line with
